@@ -241,7 +241,12 @@ func (im indexManager) searchParallel(
 	}
 	// ---------------------------
 	if len(queries) == 1 {
-		// Shortcut, no merging required
+		// Shortcut, no merging required. The results still have to come back
+		// highest hybrid score first like any other composite: a negative
+		// weight reverses the sub-query's own order.
+		slices.SortStableFunc(results[0], func(a, b models.SearchResult) int {
+			return cmp.Compare(b.HybridScore, a.HybridScore)
+		})
 		return sets[0], results[0], nil
 	}
 	// ---------------------------
